@@ -4,6 +4,8 @@
    op ::= C <off> <len> <w:0|1> <pos> <datahex|-> <rpos> <rn>     create_chunk(off,len) ...
         | I <idx> <w> <pos> <datahex|-> <rpos> <rn>               create_chunk_index(idx) ...
         | M <idx> | V <idx> <off> <len> | Q | D | R | U | S <idx> | P <file> <off> <len>
+        | H <idx> <l1,l2,..|->     HashChunk over piece idx: perform(l) per step, then perform(remaining);
+                                   prints the bytes fed to SHA-1 (hashin=..); the glue hashes them
    A leading token T marks a loader-driven case (entries size[p]@path); the model ignores paths.
    One output line per case: the op outputs joined by " | ". *)
 let parse_layout s =
@@ -29,6 +31,8 @@ let parse_op = function
   | ["V"; idx; off; len] -> OpValid (n_of_string idx, n_of_string off, n_of_string len)
   | ["Q"] -> OpQuery
   | ["D"] -> OpDump
+  | ["H"; idx; steps] ->
+      OpHash (n_of_string idx, if steps = "-" then [] else List.map n_of_string (String.split_on_char ',' steps))
   | ["R"] -> OpReopen
   | ["U"] -> OpUpdate
   | ["S"; idx] -> OpSetBit (n_of_string idx)
@@ -37,8 +41,11 @@ let parse_op = function
 
 let sn = string_of_n
 let optn = function Some x -> sn x | None -> "ERR:internal"
+(* page size of the machine the implementation runs on (MemoryChunk::page_size()), given by the glue *)
+let page = n_of_string (try Sys.getenv "LTV_PAGE" with Not_found -> "4096")
 let show_part p =
-  Printf.sprintf "%s:%s:%d:%s:%s" (sn p.p_pos) (sn p.p_size) (int_of_nat p.p_file) (sn p.p_foff) (if p.p_pad then "p" else "f")
+  Printf.sprintf "%s:%s:%d:%s:%s:%s" (sn p.p_pos) (sn p.p_size) (int_of_nat p.p_file) (sn p.p_foff) (if p.p_pad then "p" else "f")
+    (sn (part_align page p))
 let commas f l = if l = [] then "-" else String.concat "," (List.map f l)
 let show_out = function
   | OutErr -> "ERR:internal"
@@ -55,6 +62,8 @@ let show_out = function
         (commas (fun (f, k) -> Printf.sprintf "%s:%s:%s:%s:%s" (sn f.f_off) (sn f.f_size) (sn f.f_r1) (sn f.f_r2) (sn k)) files)
         (sn cc) (optn cb) (optn left)
   | OutDump imgs -> "dump=" ^ commas (function None -> "P" | Some b -> hex_of_bytes b) imgs
+  | OutHash (Some b, pos) -> "hashin=" ^ hex_of_bytes b ^ " pos=" ^ sn pos
+  | OutHash (None, pos) -> "hash=ERR:internal pos=" ^ sn pos
   | OutUpd ok -> if ok then "upd=ok" else "upd=ERR:internal"
   | OutSet ok -> if ok then "set=1" else "set=0"
   | OutPread (None, _) -> "pread=none"
